@@ -16,7 +16,7 @@ META = {
  "harnesses": {
   "h_hist": {"kind": "G", "functions": _FUNCS,
     "bounds": "base states gfa1, gfa2 (quick) + gfa1b, gfa2b (thorough) x every history of 2 steps over {add_line(pool: fresh ids, ids in use by the same / another record type, group merges, equal and complement links), rename(any identified line -> fresh name | name of a segment | name of another record type | integer-looking name)}; after every step: names pairwise distinct, line()/try_get_line()/segment() coherent for every pool name, refusals are NotUniqueError, text after a successful step equals the text model",
-    "timeout": {"quick": 400, "thorough": 1200}, "parts": {"quick": 16, "thorough": 16}},
+    "timeout": {"quick": 400, "thorough": 900}, "parts": {"quick": 16, "thorough": 16}},
   "h_rename_levels": {"kind": "L/G", "functions": ["FieldData._set_existing_field (rename)", "Creators._register_line/_unregister_line", "Finders.line/names"],
     "bounds": "the 4 base states read at vlevel 0..3; every identified line renamed to each of the 6 rename targets (fresh, in use by the same / another record type, numeric, placeholder id, '*'): same outcome class at every level as the oracle of h_hist (refused with NotUniqueError and nothing changed, or renamed everywhere)",
     "timeout": {"quick": 300, "thorough": 600}, "parts": {"quick": 8, "thorough": 8}},
